@@ -56,7 +56,7 @@ PROPS = {
         shards={"quick": 8, "thorough": 16},
     ),
     "C10": dict(
-        pkg="pb", test="TestVerifC10", model="C10", level="proof", stateless=True, diff_is_failure=True, also=["C01"],
+        pkg="pb", test="TestVerifC10", model="C10", level="proof", stateless=True, diff_is_failure=True, also=["C01", "C11"],
         nontrivial_line=lambda l: (":0" in l) or ("rec=-" in l) or ("type=99" in l),
         rule="every line is one ProtocolMessenger call answered with a generated response: the full table of "
              "method x response type x record shape (absent / key mismatch / value mismatch) and random peer "
@@ -117,7 +117,7 @@ PROPS = {
         shards={"quick": 8, "thorough": 16},
     ),
     "C04": dict(
-        pkg=".", test="TestVerifC04", model="C04", verdict="C04v", level="proof", diff_is_failure=True, also=["C16"],
+        pkg=".", test="TestVerifC04", model="C04", verdict="C04v", level="proof", diff_is_failure=True, also=["C16", "C15"],
         # after a cancellation the consumer races with ctx.Done: accept any prefix-consistent answer
         accept=lambda m, o: m == "-" or (" " + m + " ") in (" " + o + " ") or all(t in o for t in m.split()) or "err=canceled" in o,
         rule="a case is a GetValue or SearchValue (quorum 0,1,2,K) on a scripted network whose responders hold valid "
